@@ -228,6 +228,7 @@ def pOp (name : String) : P Op := do
     let d ← pNat
     pure (.sleep d)
   | "C10.restart" => pure .restart
+  | "C10.resetleases" => pure .resetLeases
   | _ => failure
 
 def AGH.C10.Op.rawHost? : Op → Option Bytes
